@@ -17,9 +17,9 @@ CONSTANTS MaxSegmentsPerTier, MaxSegmentSize, TierGrowth, SegmentsPerMergeTask, 
           MaxArrivals
 
 VARIABLES segs,      \* set of [id, full, live]
-          nextId, arrivals
+          arrivals
 
-vars == <<segs, nextId, arrivals>>
+vars == <<segs, arrivals>>
 
 Opts == [mpt |-> MaxSegmentsPerTier, max |-> MaxSegmentSize, growth |-> TierGrowth,
          width |-> SegmentsPerMergeTask, floor |-> FloorSegmentSize]
@@ -62,23 +62,32 @@ PlanOK(o, S, tasks) ==
 Progress(t) == Cardinality(t) >= 2 \/ \E s \in t : s.live < s.full
 
 \* executing the plan: each task becomes one segment holding the live data
-Execute(S, tasks, firstId) ==
-  (S \ TaskUnion(tasks)) \cup
-  {[id |-> firstId + i - 1, full |-> SumLive(tasks[i]), live |-> SumLive(tasks[i])] :
-      i \in {j \in DOMAIN tasks : SumLive(tasks[j]) > 0}}
+\* (ids are recycled: the smallest ids not in use, so that the model stays finite)
+FreeIds(S, n) == LET used == {s.id : s \in S}
+                     cand == (1..(Cardinality(S) + n + 1)) \ used
+                     RECURSIVE take(_, _)
+                     take(C, k) == IF k = 0 THEN <<>> ELSE LET m == CHOOSE x \in C : \A y \in C : x <= y
+                                                           IN <<m>> \o take(C \ {m}, k - 1)
+                 IN take(cand, n)
+Execute(S, tasks) ==
+  LET rest == S \ TaskUnion(tasks)
+      ids == FreeIds(rest, Len(tasks))
+  IN rest \cup
+     {[id |-> ids[i], full |-> SumLive(tasks[i]), live |-> SumLive(tasks[i])] :
+         i \in {j \in DOMAIN tasks : SumLive(tasks[j]) > 0}}
 
 \* ---- dynamics ---------------------------------------------------------------------
-Init == segs = {} /\ nextId = 1 /\ arrivals = 0
+Init == segs = {} /\ arrivals = 0
 
 Arrive(sz) ==
   /\ arrivals < MaxArrivals /\ Cardinality(segs) < MaxSegs
-  /\ segs' = segs \cup {[id |-> nextId, full |-> sz, live |-> sz]}
-  /\ nextId' = nextId + 1 /\ arrivals' = arrivals + 1
+  /\ segs' = segs \cup {[id |-> FreeIds(segs, 1)[1], full |-> sz, live |-> sz]}
+  /\ arrivals' = arrivals + 1
 
 Delete(s, k) ==
-  /\ s \in segs /\ k \in 1..s.live
+  /\ s \in segs /\ k \in {1, s.live} /\ k >= 1 /\ k <= s.live
   /\ segs' = (segs \ {s}) \cup {[s EXCEPT !.live = s.live - k]}
-  /\ UNCHANGED <<nextId, arrivals>>
+  /\ UNCHANGED arrivals
 
 \* any plan a contract-abiding, progressing planner may return, executed at once
 Partitions(E) == {t \in SUBSET E : t # {}}
@@ -89,11 +98,10 @@ PlanAndExecute ==
       IN /\ PlanOK(Opts, segs, tasks)
          /\ \A i \in DOMAIN tasks : Progress(tasks[i])
          /\ Len(tasks) > 0
-         /\ segs' = Execute(segs, tasks, nextId)
-         /\ nextId' = nextId + Len(tasks)
+         /\ segs' = Execute(segs, tasks)
          /\ UNCHANGED arrivals
 
-Next == (\E sz \in ArriveSizes : Arrive(sz)) \/ (\E s \in segs : \E k \in 1..s.live : Delete(s, k)) \/ PlanAndExecute
+Next == (\E sz \in ArriveSizes : Arrive(sz)) \/ (\E s \in segs : \E k \in {1, s.live} : Delete(s, k)) \/ PlanAndExecute
 Spec == Init /\ [][Next]_vars
 FairSpec == Spec /\ WF_vars(PlanAndExecute)
 
